@@ -264,10 +264,21 @@ pub fn generate(args: &Args, out: &mut Out) {
             });
         }
         // route 2: rebuild the final entries in one go
-        let mut o = Object::new();
-        for op in &ops {
-            crate::object::apply(&mut o, op);
-        }
+        let ops2 = ops.clone();
+        let o = match std::panic::catch_unwind(move || {
+            let mut o = Object::new();
+            for op in &ops2 {
+                crate::object::apply(&mut o, op);
+            }
+            o
+        }) {
+            Ok(o) => o,
+            Err(_) => {
+                // only on a broken tree: let the guarded evaluation of this history report it
+                out.case_str(&format!("hh {nk} {} / {}", ops.join(" "), ops.join(" ")));
+                continue;
+            }
+        };
         let pairs: Vec<String> = o
             .iter()
             .map(|e| format!("{}={}", e.key.as_str().trim_start_matches('k').parse::<usize>().unwrap(), match &e.value {
